@@ -4,7 +4,7 @@ CONSTANT Depth
 VARIABLES hist, done
 vars == <<hist, done>>
 RE(S) == RandomElement(S)
-Msgs == {"fetchreq", "fetchresp", "creds", "tiny", "reginfo"}
+Msgs == {"fetchreq", "fetchresp", "creds", "tiny", "reginfo", "empty"}   \* "empty": a message whose encoding is zero bytes long
 Sides == {"node", "server"}
 Tampers == {"none", "none", "flip", "trunc", "random", "short", "nokeyinfo"}
 Other(S, x) == RE(S \ {x})
